@@ -303,6 +303,32 @@ impl World {
         r
     }
 
+    /// One journalled command of the given kind, carrying `name` in its content, through the real TCP
+    /// handler: 0 create stream, 1 create topic (stream 1), 2 create user, 3 create consumer group
+    /// (stream 1 / topic 1), 4 create personal access token (root), 5 rename stream 1.
+    pub fn journalled_command(&mut self, kind: usize, name: &str) -> Result<(), String> {
+        use iggy::client::{ConsumerGroupClient, PersonalAccessTokenClient, UserClient};
+        use iggy::models::user_status::UserStatus;
+        use iggy::utils::personal_access_token_expiry::PersonalAccessTokenExpiry;
+        if self.admin.is_none() {
+            self.admin = Some(self.node.tcp_root_client());
+        }
+        let client = self.admin.as_ref().unwrap();
+        let r = self.node.try_block_on(async {
+            match kind {
+                0 => client.create_stream(name, None).await.map(|_| ()),
+                1 => client.create_topic(&sid(), name, 1, CompressionAlgorithm::None, None, None, IggyExpiry::NeverExpire, MaxTopicSize::ServerDefault).await.map(|_| ()),
+                2 => client.create_user(&name.to_lowercase(), &format!("{name}-secret"), UserStatus::Active, None).await.map(|_| ()),
+                3 => client.create_consumer_group(&sid(), &sid(), name, None).await.map(|_| ()),
+                4 => client.create_personal_access_token(&name.to_lowercase(), PersonalAccessTokenExpiry::NeverExpire).await.map(|_| ()),
+                _ => client.update_stream(&sid(), name).await,
+            }
+        });
+        let r = self.flatten(r);
+        self.node.quiesce(2);
+        r
+    }
+
     pub fn send_to(&mut self, partition: u32, ids: Option<&[u8]>, n: usize) -> (Vec<Sent>, Result<(), String>) {
         let (sent, msgs) = self.mk_msgs(ids, n);
         let shared = self.node.shared();
